@@ -21,8 +21,10 @@ impl From<std::string::FromUtf8Error> for AnyhowError {
     #[verifier::external_body]
     fn from(e: std::string::FromUtf8Error) -> AnyhowError { AnyhowError }
 }
+/// well-formed UTF-8
+pub uninterp spec fn is_utf8(b: Seq<u8>) -> bool;
 pub assume_specification[ String::from_utf8 ](v: Vec<u8>) -> (r: Result<String, std::string::FromUtf8Error>)
-    ensures r.is_ok() ==> string_bytes(r.unwrap()) == v@;
+    ensures r.is_ok() <==> is_utf8(v@), r.is_ok() ==> string_bytes(r.unwrap()) == v@;
 /// Vec<u8>::extend(&[u8])  (R6: `V.extend(E.as_bytes())`)
 #[verifier::external_body]
 fn vt_extend_slice(v: &mut Vec<u8>, s: &[u8])
@@ -33,11 +35,16 @@ fn vt_extend_slice(v: &mut Vec<u8>, s: &[u8])
 pub struct CharString<'a> { pub str: &'a str, g: bool }
 pub type CS<'a> = CharString<'a>;
 pub struct Character<'s> { pub str: &'s str }
-pub uninterp spec fn chars_of(s: &str, g: bool) -> Seq<Seq<char>>;
+pub uninterp spec fn chars_of(s: Seq<char>, g: bool) -> Seq<Seq<char>>;
 impl<'s> CharString<'s> {
-    pub closed spec fn view(&self) -> Seq<Seq<char>> { chars_of(self.str, self.g) }
+    pub closed spec fn view(&self) -> Seq<Seq<char>> { chars_of(self.str@, self.g) }
     #[verifier::external_body]
-    pub fn new(str: &'s str, use_graphemes: bool) -> (r: CharString<'s>) ensures r.view() == chars_of(str, use_graphemes) { unimplemented!() }
+    pub fn new(str: &'s str, use_graphemes: bool) -> (r: CharString<'s>)
+        ensures r.view() == chars_of(str@, use_graphemes),
+            // the characters partition the string: their UTF-8 lengths add up to its byte length
+            char_bytes(r.view(), r.view().len() as int) == chars_utf8(str@).len(),
+            forall|i: int| 0 <= i < r.view().len() ==> chars_utf8(#[trigger] r.view()[i]).len() <= usize::MAX,
+    { unimplemented!() }
     #[verifier::external_body]
     pub fn vt_chars_vec(&self) -> (r: Vec<Character<'s>>)
         ensures r.len() == self.view().len(), forall|k: int| 0 <= k < r.len() ==> (#[trigger] r[k]).str@ == self.view()[k],
@@ -122,6 +129,82 @@ pub type VocabFreeTokenizer<Config> = BaseTokenizer<Config>;
 pub type ByteTokenizer = VocabFreeTokenizer<ByteTokenizerConfig>;
 //@end
 
+// ---------------------------------------------------------------- token groups (C17): nested lengths
+/// number of tokens a (possibly nested) group covers -- the meaning of `TokenGroup::len`
+pub open spec fn glen(g: TokenGroup) -> nat
+    decreases g
+{
+    match g {
+        TokenGroup::Empty(n) => n as nat,
+        TokenGroup::Full(n) => n as nat,
+        TokenGroup::Nested(v) => glens(v@, v@.len() as int),
+    }
+}
+pub open spec fn glens(v: Seq<TokenGroup>, k: int) -> nat
+    decreases v, k
+{
+    if k <= 0 || k > v.len() { 0 } else { glens(v, k - 1) + glen(v[k - 1]) }
+}
+pub open spec fn gtotal(v: Seq<TokenGroup>) -> nat { glens(v, v.len() as int) }
+proof fn lemma_glens_prefix(a: Seq<TokenGroup>, b: Seq<TokenGroup>, k: int)
+    requires 0 <= k <= a.len(), k <= b.len(), forall|i: int| 0 <= i < k ==> a[i] == b[i],
+    ensures glens(a, k) == glens(b, k),
+    decreases k
+{
+    if k > 0 { lemma_glens_prefix(a, b, k - 1); }
+}
+proof fn lemma_gtotal_push(v: Seq<TokenGroup>, x: TokenGroup)
+    ensures gtotal(v.push(x)) == gtotal(v) + glen(x),
+{
+    lemma_glens_prefix(v.push(x), v, v.len() as int);
+}
+proof fn lemma_gtotal_append(a: Seq<TokenGroup>, b: Seq<TokenGroup>, k: int)
+    requires 0 <= k <= b.len(),
+    ensures glens(a + b, a.len() + k) == gtotal(a) + glens(b, k),
+    decreases k
+{
+    if k == 0 {
+        lemma_glens_prefix(a + b, a, a.len() as int);
+    } else {
+        lemma_gtotal_append(a, b, k - 1);
+        assert((a + b)[a.len() + k - 1] == b[k - 1]);
+    }
+}
+proof fn lemma_gtotal_ones(v: Seq<TokenGroup>, k: int)
+    requires 0 <= k <= v.len(), forall|i: int| 0 <= i < v.len() ==> #[trigger] v[i] == TokenGroup::Full(1),
+    ensures glens(v, k) == k,
+    decreases k
+{
+    if k > 0 {
+        lemma_gtotal_ones(v, k - 1);
+        assert(v[k - 1] == TokenGroup::Full(1));
+        assert(glen(v[k - 1]) == 1);
+        assert(glens(v, k) == glens(v, k - 1) + glen(v[k - 1]));
+    }
+}
+/// sum of the UTF-8 byte lengths of the first k characters
+pub open spec fn char_bytes(f: Seq<Seq<char>>, k: int) -> nat
+    decreases k
+{
+    if k <= 0 || k > f.len() { 0 } else { char_bytes(f, k - 1) + chars_utf8(f[k - 1]).len() }
+}
+proof fn lemma_full_lens(g: Seq<TokenGroup>, base: int, f: Seq<Seq<char>>, k: int)
+    requires 0 <= k <= f.len(), 0 <= base, base + f.len() <= g.len(),
+        forall|i: int| 0 <= i < f.len() ==> #[trigger] g[base + i] == TokenGroup::Full(chars_utf8(f[i]).len() as usize),
+        forall|i: int| 0 <= i < f.len() ==> chars_utf8(#[trigger] f[i]).len() <= usize::MAX,
+    ensures glens(g, base + k) == glens(g, base) + char_bytes(f, k),
+    decreases k
+{
+    if k > 0 {
+        lemma_full_lens(g, base, f, k - 1);
+        assert(g[base + (k - 1)] == TokenGroup::Full(chars_utf8(f[k - 1]).len() as usize));
+        assert(chars_utf8(f[k - 1]).len() <= usize::MAX);
+        assert(glen(g[base + k - 1]) == chars_utf8(f[k - 1]).len());
+        assert(glens(g, base + k) == glens(g, base + k - 1) + glen(g[base + k - 1]));
+        assert(char_bytes(f, k) == char_bytes(f, k - 1) + chars_utf8(f[k - 1]).len());
+    }
+}
+
 // R6 idioms of process_input / add_prefix_and_suffix (std iterator adapters and macros)
 #[verifier::external_body]
 fn vt_full_ones(n: usize) -> (r: Vec<TokenGroup>)
@@ -139,9 +222,12 @@ fn vt_extend_full(g: &mut Vec<TokenGroup>, lens: Vec<usize>)
 { unimplemented!() }
 #[verifier::external_body]
 fn vt_code_point_groups(c: &Character) -> (r: Vec<TokenGroup>)
+    // one Full(len_utf8) group per code point of the character: together they cover the character's bytes
+    ensures gtotal(r@) == chars_utf8(c.str@).len(),
 { unimplemented!() }
 #[verifier::external_body]
 fn vt_single_map(k: String, v: Grouping) -> (r: HashMap<String, Grouping>)
+    ensures r@ == Map::<String, Grouping>::empty().insert(k, v),
 { unimplemented!() }
 /// A.iter().cloned().chain(B).chain(C.iter().cloned()).collect()
 #[verifier::external_body]
@@ -161,6 +247,15 @@ pub open spec fn parts_text(p: Seq<Part>) -> Seq<char>
     decreases p.len()
 {
     if p.len() == 0 { Seq::empty() } else { parts_text(p.drop_last()) + (match p.last() { Part::Regular(s) => s, Part::Special(s) => s }) }
+}
+
+/// one group per character of a regular part, one per special token
+pub open spec fn ngroups(p: Seq<Part>, k: int, g: bool) -> nat
+    decreases k
+{
+    if k <= 0 || k > p.len() { 0 } else {
+        ngroups(p, k - 1, g) + (match p[k - 1] { Part::Regular(x) => chars_of(x, g).len(), Part::Special(_) => 1 })
+    }
 }
 
 impl<Config, State> BaseTokenizer<Config, State> {
@@ -255,6 +350,7 @@ impl<Config, State> BaseTokenizer<Config, State> {
 }
 
 impl ByteTokenizer {
+    pub closed spec fn graphemes(&self) -> bool { self.config.use_graphemes }
 //@unit src/tokenization.rs fn process_input impl=^impl\sByteTokenizer$
 //@rule R4
 //@rule R6_byte_process
@@ -271,6 +367,12 @@ impl ByteTokenizer {
             res.is_ok() ==> exists|p: Seq<Part>| #[trigger] self.split_ok(s@, ignore_special_tokens, p) && res.unwrap().0@ == self.ids_of(p),
             // without special-token parsing: just the bytes, and never an error
             ignore_special_tokens ==> res.is_ok() && res.unwrap().0@ == bytes_as_ids(chars_utf8(s@)),
+            // C17: the (nested) group lengths sum to prefix + ids + suffix
+            res.is_ok() ==> (match res.unwrap().1 {
+                TokenizationInfo::TokenGroups(m) => forall|k: String| #[trigger] m@.contains_key(k) ==>
+                    gtotal(m@[k].0@) == self.prefix().len() + res.unwrap().0.len() + self.suffix().len(),
+                _ => false,
+            }),
     {
         let mut tokens = vec![];
         let group_name = match self.config.groups {
@@ -281,6 +383,7 @@ impl ByteTokenizer {
 
         // initialize groups with 1 for each prefix token
         let mut groups = vt_full_ones(self.num_prefix_tokens());
+        proof { lemma_gtotal_ones(groups@, groups.len() as int); }
 
         let vt_parts = self.split_input(s, ignore_special_tokens);
         let ghost parts = vt_parts@.map(|k: int, t: TokenInput| part_of(t));
@@ -293,6 +396,9 @@ impl ByteTokenizer {
                 self.split_ok(s@, ignore_special_tokens, parts),
                 done == it.index@, 0 <= done <= parts.len(),
                 tokens@ == self.ids_of(parts.subrange(0, done)),
+                // group accounting: nested lengths cover prefix + ids so far; one group per character / special token
+                gtotal(groups@) == self.prefix().len() + tokens.len(),
+                groups.len() == self.prefix().len() + ngroups(parts, done, self.graphemes()),
         {
             proof {
                 assert(part_of(input) == parts[done]);
@@ -316,26 +422,52 @@ impl ByteTokenizer {
                         axiom_string_ext(key, key2);
                         assert(self.special_id(token@) == Some(token_id));
                     }
+                    let ghost g0 = groups@;
                     tokens.push(token_id);
                     groups.push(TokenGroup::Full(1));
-                    proof { assert(tokens@ =~= self.ids_of(parts.subrange(0, done)) + seq![token_id]); }
+                    proof {
+                        assert(tokens@ =~= self.ids_of(parts.subrange(0, done)) + seq![token_id]);
+                        lemma_gtotal_push(g0, TokenGroup::Full(1));
+                    }
                 }
                 TokenInput::Regular(s) => {
                     proof { axiom_str_bytes(s); }
+                    let ghost g0 = groups@;
                     vt_extend_bytes(&mut tokens, s.as_bytes());
                     let cs = CS::new(s, self.config.use_graphemes);
+                    let ghost f = cs.view();
+                    proof { assert(bytes_as_ids(chars_utf8(s@)).len() == chars_utf8(s@).len()); }
                     match self.config.groups {
                         ByteGroups::Bytes => {
                             vt_extend_full(&mut groups, cs.get_char_byte_lengths());
+                            proof {
+                                lemma_glens_prefix(groups@, g0, g0.len() as int);
+                                lemma_full_lens(groups@, g0.len() as int, f, f.len() as int);
+                            }
                         }
                         ByteGroups::CodePoints => {
                             let vt_v = cs.vt_chars_vec();
-                            for vt_i in 0..vt_v.len() {
+                            for vt_i in 0..vt_v.len()
+                                invariant
+                                    f == cs.view(), vt_v.len() == f.len(),
+                                    forall|k: int| 0 <= k < vt_v.len() ==> (#[trigger] vt_v[k]).str@ == f[k],
+                                    groups.len() == g0.len() + vt_i,
+                                    gtotal(groups@) == gtotal(g0) + char_bytes(f, vt_i as int),
+                            {
                                 let char = &vt_v[vt_i];
                                 let code_point_groups = vt_code_point_groups(char);
+                                let ghost g1 = groups@;
+                                proof {
+                                    assert(glen(TokenGroup::Nested(code_point_groups)) == gtotal(code_point_groups@));
+                                    lemma_gtotal_push(g1, TokenGroup::Nested(code_point_groups));
+                                }
                                 groups.push(TokenGroup::Nested(code_point_groups))
                             }
                         }
+                    }
+                    proof {
+                        assert(groups.len() == g0.len() + f.len());
+                        assert(gtotal(groups@) == gtotal(g0) + chars_utf8(s@).len());
                     }
                 }
             }
@@ -354,7 +486,14 @@ impl ByteTokenizer {
         }
 
         // append group of length 1 for each suffix token
+        let ghost g0 = groups@;
         groups.append(&mut vt_full_ones(self.num_suffix_tokens()));
+        proof {
+            let ones = groups@.subrange(g0.len() as int, groups.len() as int);
+            assert(groups@ =~= g0 + ones);
+            lemma_gtotal_append(g0, ones, ones.len() as int);
+            lemma_gtotal_ones(ones, ones.len() as int);
+        }
         Ok((
             tokens,
             TokenizationInfo::TokenGroups(vt_single_map(group_name, (groups, self.config.aggregation))),
@@ -391,6 +530,9 @@ impl ByteTokenizer {
             // an unknown special id is an error (never a panic) when special tokens are kept
             (!ignore_special_tokens && exists|k: int| 0 <= k < token_ids.len() && token_ids[k] >= 256 && !self.special().rev().contains_key(#[trigger] token_ids[k]))
                 ==> res.is_err(),
+            // total on valid input: known ids that spell well-formed UTF-8 always decode
+            (ignore_special_tokens || forall|k: int| 0 <= k < token_ids.len() && token_ids[k] >= 256 ==> self.special().rev().contains_key(#[trigger] token_ids[k]))
+                && is_utf8(self.dec(token_ids@, !ignore_special_tokens)) ==> res.is_ok(),
     {
         let mut bytes = vec![];
         let ghost mut done: int = 0;
